@@ -40,7 +40,14 @@ def run(ctx):
         'iteration update, the approximate transition split, Novendstern, MIT '
         'and SE2 splits',
         'R5 the transition iteration is bounded (range loop) and ends in '
-        'return or StopIteration that the caller handles']
+        'return or StopIteration that the caller handles',
+        'R6 one correlation, one transition law: every call a flow-split '
+        'module makes into the shared Cheng-Todreas workers passes the same '
+        'transition exponent (_lambda), with and without spacer grids, and '
+        'that exponent is the one of the (1 - psi^lambda) factor in the '
+        'friction-factor module of the same family (none for CTD, 7 for '
+        'UCTD): equal pressure drop across subchannels is solved with the '
+        'friction law the pressure drop is then computed with']
     ctx.not_decided += ['pressure-gradient equality as numbers', 'positivity '
                         'and finiteness of friction factors / mixing '
                         'parameters']
@@ -51,6 +58,8 @@ def run(ctx):
     r2(ctx, slots, res)
     r4(ctx)
     r5(ctx)
+    r6(ctx, slots)
+    ctx.min_instances('C12.R6', 4)
     ctx.min_instances('C12.R1', 240)
     ctx.min_instances('C12.R2', 20)
     ctx.min_instances('C12.R3', 15)
@@ -767,3 +776,99 @@ def r5(ctx):
             else:
                 ctx.advisory('C12.R5', f, c, 'non-convergence of the '
                              'iteration (StopIteration) is not handled here')
+
+
+# ---------------------------------------------------------------------------
+# R6: one transition law per correlation family
+
+def _lambda_params(repo):
+    """{module.func: parameter name} of package functions that accept a
+    transition exponent and forward it (parameter named _lambda / lam)."""
+    out = {}
+    for fi in repo.all_funcs():
+        for p in fi.params:
+            if p in ('_lambda', 'lam'):
+                out[(fi.mod.name, fi.name)] = p
+    return out
+
+
+def _blend_exponent(mod):
+    """Exponent E of a factor (1 - x**E) with E > 1 in a friction module's
+    transition blend, or None."""
+    found = set()
+    for fi in mod.funcs.values():
+        for n in ast.walk(fi.node):
+            if isinstance(n, ast.BinOp) and isinstance(n.op, ast.Sub) and \
+                    const(n.left) == 1 and isinstance(n.right, ast.BinOp) \
+                    and isinstance(n.right.op, ast.Pow):
+                e = const(n.right.right)
+                if isinstance(e, (int, float)) and e > 1:
+                    found.add(float(e))
+    if len(found) > 1:
+        raise AnalysisError('%s: several blend exponents %s' % (mod.name,
+                                                                found))
+    return found.pop() if found else None
+
+
+def r6(ctx, slots):
+    repo = ctx.repo
+    lam = _lambda_params(repo)
+    if not lam:
+        raise AnalysisError('no function takes a transition exponent any '
+                            'more: revisit C12.R6')
+    seen = 0
+    for occ in slots['fs'][1]:
+        m = occ.module
+        sites = []
+        for fi in m.funcs.values():
+            for c in walk_no_nested(fi.node):
+                if not isinstance(c, ast.Call):
+                    continue
+                nm = (call_name(c) or '').split('.')[-1]
+                tgt = [k for k in lam if k[1] == nm]
+                if not tgt or fi.name == nm:
+                    continue
+                pname = lam[tgt[0]]
+                v = None
+                for k in c.keywords:
+                    if k.arg == pname:
+                        v = k.value
+                # positional
+                callee = repo.modules[tgt[0][0]].funcs[tgt[0][1]]
+                if v is None and pname in callee.params:
+                    i = callee.params.index(pname)
+                    if i < len(c.args):
+                        v = c.args[i]
+                if v is not None and isinstance(v, ast.Name) and \
+                        v.id in fi.params:
+                    continue      # forwards its own parameter
+                val = None if v is None else const(v)
+                sites.append((fi, c, None if val is None else float(val)))
+        if not sites:
+            continue
+        seen += 1
+        vals = {v for _, _, v in sites}
+        ctx.require(len(vals) == 1, 'C12.R6', sites[0][0], sites[0][1],
+                    'flow-split module %s passes different transition '
+                    'exponents to the shared workers (%s): the split with '
+                    'spacer grids and the split without follow different '
+                    'friction laws' % (m.name, sorted(
+                        '%s -> %s' % (src(c.func).split('.')[-1], v)
+                        for _, c, v in sites)),
+                    note='%d call sites, exponent %s' % (len(sites),
+                                                         sorted(vals, key=str)),
+                    key='%s | one transition exponent' % m.name)
+        # sibling friction module of the same family
+        fam = m.name.rsplit('_', 1)[-1]
+        fr = repo.modules.get('dassh.correlations.friction_' + fam)
+        if fr is None:
+            continue
+        e = _blend_exponent(fr)
+        ctx.require(vals == {e}, 'C12.R6', sites[0][0], sites[0][1],
+                    'flow-split module %s uses transition exponent %s but '
+                    'the friction module %s blends with %s' % (
+                        m.name, sorted(vals, key=str), fr.name, e),
+                    key='%s | exponent matches friction law' % m.name)
+    if seen < 2:
+        raise AnalysisError('C12.R6: fewer than two flow-split modules call '
+                            'the shared workers (%d)' % seen)
